@@ -6,6 +6,22 @@ NOTES = ('All checks are ./check <id>; each rebuilds a source-only overlay from 
 NOT_CLAIMED = {}
 
 PROPS = {
+    'C06': {
+        'modules': ['contracts.C06_equivalence'],
+        'level': 'proof',
+        'level_text': 'Relational (product) contract of the two request classes: one abstract request is presented as a PEP 3333 environ and as an ASGI HTTP '
+                      'scope (header list folded by the rule restated in the contract), the REAL falcon.Request.__init__ and falcon.asgi.Request.__init__ run on '
+                      'the coupled inputs, and for every accessor pair (method, path with both strip settings, query_string, params, content_type/length, headers, '
+                      'get_header*, user_agent/auth/expect/if_range/referer, range, scheme/host/port/netloc/subdomain, forwarded*, uri/url/prefix/relative_uri, '
+                      'access_route, remote_addr, accept/client_accepts*, if_match/if_none_match, dates, cookies) both sides raise the same error class for '
+                      'the same header or return equal values, for arbitrary symbolic header values; opaque parsers are one shared uninterpreted outcome '
+                      'sequence and must receive equal arguments on both sides.',
+        'level_note': 'ONLY the request side of the property is decided by contracts. The response side is decided per stack in C05 (same response spec on both '
+                      'tails), not relationally here; the falcon.testing half (create_environ/create_scope, emitters/collectors, simulate_request against a '
+                      'spec-faithful driver) and bodies/media across stacks are covered only by the labelled bounded differential stand-in. Coupling is ASCII '
+                      'only for path/query (latin-1 tunnelling is a server obligation), scope server present, non-empty peer address. Recorded known finding: '
+                      'remote_addr diverges when a Forwarded node port is not a number (ASGI raises through access_route, WSGI reads REMOTE_ADDR).',
+    },
     'C10': {
         'modules': ['contracts.C10_uri'],
         'level': 'proof',
